@@ -242,7 +242,7 @@ def c07(work, tier, seed):
     scripts = []
     hosts = hosts_ip = [["H1", ":", "PA"], ["H1", ":", "PB"], ["H1", ":", "PE"]]
 
-    def mk(schedule, ntun, idx, big=False, contend=None, samelogin=False, byname=False):
+    def mk(schedule, ntun, idx, big=False, contend=None, samelogin=False, byname=False, overlap=False):
         token = idx % 3 != 2 or samelogin
         hosts = hosts_ip if not byname else [["HL", ":", "PA"], ["HL", ":", "PB"], ["HL", ":", "PE"]]
         cfg = {"tokenAuth": token, "smartCard": False, "auth": "openid" if token else "ntlm", "sel": "unsigned" if token else "roundrobin", "hosts": hosts, "verifyIp": True, "idle": 0}
@@ -259,6 +259,9 @@ def c07(work, tier, seed):
                 tun = dict(tun, user="user1", loginGroup="g%d" % idx, mintXFF="10.0.0.1", useXFF="10.0.0.1")
             tunnels.append({"transport": ["ws", "legacy"][(idx + k) % 2], "tun": tun, "steps": tunnel_steps(k, token, variant, "HL" if byname else "H1")})
         sc = {"id": "m%05d" % len(scripts), "origin": "interleave:%d" % ntun, "cfg": cfg, "tunnels": tunnels, "schedule": schedule}
+        if overlap:
+            sc["overlap"] = True
+            sc["origin"] = "overlap:%d" % ntun
         if contend:
             sc["contend"] = contend
             sc["origin"] = "contend:%d" % ntun
@@ -288,6 +291,11 @@ def c07(work, tier, seed):
     # tunnel still gets to the endpoint it asked for
     for i, p in enumerate(il2[:6] + il3[:6] if tier == "quick" else il2[:40] + il3[:40]):
         mk(p, 2 + (max(p) == 2), 3 * i + (i % 2), byname=True)
+    # overlapped steps: the answer to one tunnel's request is held between being built and being put on the transport
+    # while another tunnel's next request is handled completely (every interleaving of 2 and 3 tunnels from the model,
+    # distinct version bytes, some tunnels misbehaving): each tunnel still gets the answer to its own request
+    for i, p in enumerate(il2[:30] + il3[:10] if tier == "quick" else il2[:300] + il3[:150]):
+        mk(p, 2 + (max(p) == 2), 5 * i + 1, overlap=True)
     # many tunnels at once, seeded random schedules
     for i in range(6 if tier == "quick" else 40):
         n = [8, 16, 32, 64][i % 4] if tier == "thorough" else [8, 16][i % 2]
@@ -328,6 +336,39 @@ def c07(work, tier, seed):
     out.coverage["interleavings_3_tunnels"] = {"total": tot3, "run": len(il3)}
     out.coverage["tunnel_model_states"] = proto.get("distinct")
     return out
+
+
+def overlap_run(pid, work, tier, seed, design):
+    """Answers under overlap (multi driver, Overlap scripts): the guards of pid evaluated on tunnels whose answers were
+    held between being built and being written while another tunnel's request was handled."""
+    rng = random.Random(seed + 77)
+    r2, il2, tot2 = interleavings(work, "MC_Interleave2", 24 if tier == "quick" else 300, rng)
+    r3, il3, tot3 = interleavings(work, "MC_Interleave3", 8 if tier == "quick" else 150, rng)
+    hosts = [["H1", ":", "PA"], ["H1", ":", "PB"], ["H1", ":", "PE"]]
+    scripts = []
+    for idx, p in enumerate(il2 + il3):
+        ntun = 2 + (max(p) == 2)
+        token = idx % 3 != 2
+        cfg = {"tokenAuth": token, "smartCard": idx % 4 == 1, "auth": "openid" if token else "ntlm", "sel": "unsigned" if token else "roundrobin", "hosts": hosts, "verifyIp": True,
+               "idle": [0, 30, 1200][idx % 3]}
+        tunnels = []
+        for k in range(ntun):
+            variant = ["ok", "ok", "cross-host", "ok", "bad-cookie", "out-of-order"][(idx + k * 5) % 6]
+            user = ("user%d" % (k + 1)) if token else ["nuser1", "nuser2"][k % 2]
+            tun = {"user": user, "hostName": ["H1"], "hostPort": ["PA", "PB", "PE"][k % 3], "entry": hosts[k % 3], "mintXFF": "10.0.0.%d" % (k + 1), "useXFF": "10.0.0.%d" % (k + 1)}
+            steps = tunnel_steps(k, token, variant)
+            steps[0] = dict(steps[0], major=1 + 7 * k + idx % 5, minor=3 * k + 1, caps=(2 if token else 0) | (1 if cfg["smartCard"] and k % 2 else 0))
+            if not token and cfg["smartCard"]:
+                steps[0]["caps"] = 1
+            if variant == "ok" and k == ntun - 1:
+                steps = steps + [{"k": "close", "cls": "valid"}]
+            tunnels.append({"transport": ["ws", "legacy"][(idx + k) % 2], "tun": tun, "steps": steps})
+        sched = list(p) + [t for t in range(ntun) for _ in range(2)]
+        scripts.append({"id": "v%05d" % len(scripts), "origin": "overlap:%d" % ntun, "cfg": cfg, "tunnels": tunnels, "schedule": sched, "overlap": True})
+    out, rep, res = fa.generic(pid, work, tier, seed, "multi", "TunnelTrace", scripts, design,
+                               lambda v: "%s/%s/%s/overlap" % (v["guard"], v["a"], v["b"]),
+                               "answers under overlap", owns=lambda v: guard_property(v["guard"]) == pid, jobs=12, tag=pid.lower() + "-overlap")
+    return out, len(scripts)
 
 
 def c07_main(work, tier, seed, scripts, design, owns):
